@@ -9,7 +9,8 @@ set -u
 ROOT="$(cd "$(dirname "$0")/.." && pwd)"
 ID="$1"; TARGET="$2"; RUNS="${3:-200000}"; JOBS="${4:-8}"
 SEED="${VERIF_SEED:-1}"; [ "$SEED" = "0" ] && SEED=1
-export FBV_ROOT="$ROOT" CARGO_NET_OFFLINE=true
+export FBV_ROOT="$ROOT" CARGO_NET_OFFLINE=true FBV_FUZZ_PROP="$ID"
+export RUSTFLAGS="--cfg fuse_backend_rs_verif"
 BIN="$ROOT/fuzz/fuzz/target/x86_64-unknown-linux-gnu/release/$TARGET"
 LOG="$(mktemp /var/tmp/fbv-fuzzbuild-XXXXXX.log)"
 if ! (cd "$ROOT/fuzz" && flock "$ROOT/fuzz/.build.lock" cargo +nightly fuzz build "$TARGET" >"$LOG" 2>&1); then
@@ -22,11 +23,19 @@ WORK="$(mktemp -d /dev/shm/fbv-fuzz-XXXXXX)"
 trap 'rm -rf "$WORK"' EXIT
 T0=$(date +%s)
 pids=()
+case "$TARGET" in c01_msg|c04_rw) JSON=0; MAXLEN=4096;; *) JSON=1; MAXLEN=16384;; esac
 for j in $(seq 1 "$JOBS"); do
   mkdir -p "$WORK/c$j" "$WORK/a$j"
-  # odd jobs start from the committed seeds, even jobs from an empty corpus
-  if [ $((j % 2)) = 1 ] && [ -d "$ROOT/fuzz/seeds/$TARGET" ]; then cp "$ROOT/fuzz/seeds/$TARGET"/* "$WORK/c$j/" 2>/dev/null; fi
-  "$BIN" "$WORK/c$j" -runs="$RUNS" -seed=$((SEED * 100 + j)) -len_control=0 -max_len=4096 -timeout=60 -rss_limit_mb=4096 \
+  if [ "$JSON" = 1 ]; then
+    # JSON targets: committed seeds plus fresh draws from the property's own strategy
+    cp "$ROOT/fuzz/seeds/$TARGET"/* "$WORK/c$j/" 2>/dev/null
+    FBV_CORPUS_SEED=$((SEED * 100 + j)) "$ROOT/harness/target/release/fbv" corpus "$TARGET" "$WORK/fresh$j" 300 >/dev/null 2>&1
+    for f in "$WORK/fresh$j"/*; do [ -f "$f" ] && mv "$f" "$WORK/c$j/fresh-$(basename "$f")"; done
+  elif [ $((j % 2)) = 1 ] && [ -d "$ROOT/fuzz/seeds/$TARGET" ]; then
+    # byte targets: odd jobs start from the committed seeds, even jobs from an empty corpus
+    cp "$ROOT/fuzz/seeds/$TARGET"/* "$WORK/c$j/" 2>/dev/null
+  fi
+  "$BIN" "$WORK/c$j" -runs="$RUNS" -seed=$((SEED * 100 + j)) -len_control=0 -max_len=$MAXLEN -timeout=120 -rss_limit_mb=4096 \
      -artifact_prefix="$WORK/a$j/" -print_final_stats=1 >"$WORK/log$j" 2>&1 &
   pids+=($!)
 done
